@@ -79,6 +79,11 @@ def exec_NC(t):
         ai = [str(int(v)) for v in flat(x.astype(int))]
         raw = [str(int(v)) for v in flat(x.raw())]
         uraw = [str(int(v)) for v in flat(x.uraw())]
+        if len(codes) > 1:
+            # the same conversions asked for one element (index= / item=, the first element included)
+            for i_ in sorted({0, len(codes) - 1, len(codes) // 2}):
+                if [tok_exact(x.get_val(index=i_)), tok_exact(x.astype(float, index=i_)), str(int(x.astype(int, index=i_))), tok_exact(x.get_val(item=i_))] != [gv[i_], af[i_], ai[i_], gv[i_]]:
+                    return ['INDEXED_READ_DIFFERS:%d' % i_]
         if len(codes) == 1:
             if tok_exact(float(x)) != af[0]:
                 return ['FLOAT_MISMATCH']
